@@ -40,6 +40,7 @@ def gen_config(g):
         faults = [f for f in all_faults if g.random() < 0.7] or ["rng.draw"]
     return {"clients": g.randint(1, 4), "length": g.randint(8, 60), "pmax": g.randint(1, 7),
             "huge": g.random() < 0.04,     # sizes beyond any small-case threshold (32, 50, 64, 100, 128)
+            "bursts": g.random() < 0.06,   # long sessions: one call repeated hundreds of times in a row
             "seeds": seeds, "apis": apis, "faults": faults, "nsig": g.randint(3, 8),
             "late_bias": g.choice([0.5, 0.85, 1.0])}
 
@@ -298,6 +299,9 @@ def generate(run_seed, deep=False):
             if k in evaluated and rec["seed"] is not None and rec["seed"] != "default" and sc.random() < 0.2 and \
                     rec["api"] in ("nd.sample", "gen.intervention_targets") + LAYOUT_FREE:
                 rec["posseed"] = True                          # the same call with the seed passed positionally
+            if cfg.get("bursts") and sc.random() < 0.15 and rec.get("args", {}).get("n", 1) <= 40 and \
+                    rec.get("args", {}).get("p", 1) <= 20 and not cfg.get("huge"):
+                rec["burst"] = sc.choice([12, 130, 260, 1030])
             if k in evaluated and rec["api"] in ("lganm.sample", "anm.sample") and sc.random() < 0.25:
                 for kind in ("do", "shift", "noise"):          # equal dicts, filled in another order
                     v = rec["args"].get(kind)
@@ -415,7 +419,8 @@ def relayout(j):
 
 def literal(rec):
     """The same call with no reference to world objects (for the pristine evaluation)."""
-    r = {k: v for k, v in rec.items() if k not in ("c", "sig", "on_shared", "relayout", "reordered", "posseed")}
+    r = {k: v for k, v in rec.items() if k not in ("c", "sig", "on_shared", "relayout", "reordered", "posseed",
+                                                   "burst")}
     if "m" in r:
         r["m"] = dict(r["m"], id=None)
     return r
@@ -440,8 +445,8 @@ def variant(rec):
 
 
 def same_call(a, b):
-    ka = {k: v for k, v in a.items() if k not in ("c", "posseed")}
-    kb = {k: v for k, v in b.items() if k not in ("c", "posseed")}
+    ka = {k: v for k, v in a.items() if k not in ("c", "posseed", "burst")}
+    kb = {k: v for k, v in b.items() if k not in ("c", "posseed", "burst")}
     return ka == kb
 
 
@@ -474,6 +479,16 @@ def execute(sempler, run_seed, ops, pristine_budget=4):
                 raise ValueError("unknown op %r" % op)
         except Skip:
             continue
+        if op == "call" and rec.get("burst") and sigkey(rec) is not None:
+            # a long session in one step: the same seeded call many times in a row
+            for b in range(int(rec["burst"]) - 1):
+                o2 = w.call(invoke(w, rec))
+                if outcome_digest(*o2) != od:
+                    w.violate("pair_differs", SITE[rec["api"]],
+                              {"variant": variant(rec), "how": "repetition %d of a burst of %d identical seeded calls"
+                               % (b + 2, rec["burst"]), "first": od, "later": outcome_digest(*o2), "seed": rec["seed"]})
+                    break
+            w.probes["burst.seeded_calls"] += 1
         if op == "call" and out[0] == "ok" and sigkey(rec) is not None:
             w.kept.append(out[1])
             del w.kept[:-6]
@@ -690,7 +705,7 @@ REQUIRED_PROBES = ["pair.nontrivial", "pair.seed0", "pair.sep.reseed", "pair.sep
                    "pair.sep.intervened_call_on_shared_model", "pair.different_clients", "pair.numpy_integer_seed", "pair.sep.failed_call_on_same_model",
                    "pair.seed>=2**32", "pair.sep.caller_scribbled_on_a_returned_object",
                    "pair.seed_sequence_object_reused", "pair.other_memory_layout", "pair.other_dict_insertion_order",
-                   "pair.seed_passed_positionally"] + \
+                   "pair.seed_passed_positionally", "burst.seeded_calls"] + \
                   ["api:" + a for a in APIS] + ["noise:" + n for n in G.NOISE_FACTORIES] + \
                   ["nd:" + a for a in SAMPLERS] + ["nd.on_model_with_seeded_history", "nd:gen.dag_full",
                                                      "nd:gen.dag_avg_deg", "pair.default_seed_argument_omitted"]
